@@ -132,9 +132,12 @@ class Site:
 # Reviewed classifications for shapes the automatic rules do not decide.
 # key: (file, enclosing function, kind, source text of the iterable)  ->  (class, model name, reason)
 REVIEWED: dict[tuple[str, str, str, str], tuple[str, str, str]] = {
+    # shape of the site BEFORE the fix of F09a (kept so that on a tree without that fix the inventory is still
+    # produced - with the site listed as order-relevant, which makes C09_sites_full unprovable - instead of
+    # failing the translator for every property; allowed to be stale, see LEGACY)
     ("visit/endpoint/processors/parameter_processor.py", "_ensure_path_variables_as_params", "for", "url_vars"):
         ("order_relevant", "ensure_path_vars",
-         "appends one parameter per undeclared path variable to the signature list, in set order (F09a)"),
+         "appends one parameter per undeclared path variable to the signature list, in set order (F09a, fixed upstream)"),
     ("core/parsing/schema_parser.py", "_parse_properties", "id_in_string", "id(prop_schema_node)"):
         ("dead_value", "",
          "the id()-derived name is only assigned when is_simple_primitive or is_simple_array holds, and in exactly "
@@ -157,6 +160,9 @@ REVIEWED: dict[tuple[str, str, str, str], tuple[str, str, str]] = {
     ("emitters/models_emitter.py", "emit", "for", "set(all_schema_keys_to_emit) - processed_schema_original_keys"):
         ("order_irrelevant", "", "stall fallback: logs and adds every remaining key to a set; nothing is emitted here"),
 }
+
+
+LEGACY = {("visit/endpoint/processors/parameter_processor.py", "_ensure_path_variables_as_params", "for", "url_vars")}
 
 
 class Scanner(ast.NodeVisitor):
@@ -594,7 +600,7 @@ def scan(root: Path | None = None, strict: bool = True) -> tuple[list[Site], dic
             used.add(s.key)
         elif s.key in REVIEWED:
             used.add(s.key)
-    stale = [k for k in REVIEWED if k not in used]
+    stale = [k for k in REVIEWED if k not in used and k not in LEGACY]
     if stale and strict:
         raise TranslatorError(f"REVIEWED entries no longer match any site (code moved?): {stale}")
     if any(s.cls == "dead_value" for s in sites):
